@@ -309,6 +309,7 @@ class Unit:
     lemmas: List[str] = field(default_factory=list)
     fx_type: str = 'Fx'
     header: str = ''
+    crate_attrs: str = ''   # inner attributes (#![feature(..)]) the unit needs
     accessor_guards: list = field(default_factory=list)   # (src, impl_re, fn, body_regex): R3 soundness guard
 
 
@@ -529,7 +530,7 @@ def build_unit(unit: Unit, outdir, repo=None):
                 raise ExtractError('%s: %s' % (path, e))
         return src_cache[path]
 
-    gen.add(HEADER + unit.header)
+    gen.add(HEADER.replace('use vstd::prelude::*;', unit.crate_attrs + 'use vstd::prelude::*;', 1) + unit.header)
     for p in unit.prelude:
         full = os.path.join(VERIF, 'prelude', p)
         t = _read(full)
